@@ -114,6 +114,17 @@ pub fn run(ctx: &Ctx) -> Report {
         case.handshake = hs;
         case.hs_seq = if rng.chance(1, 5) { rng.below(256) as u8 } else { 1 };
         case.auth_reject = if reject { Some(4242) } else { None };
+        // behind a login that will be rejected the client may have died in the middle of a packet, or
+        // sent rubbish: the shim's error is what run_on returns, whatever is left unread
+        if reject && i % 3 == 0 {
+            case.raw_tail = match rng.below(4) {
+                0 => vec![0x10, 0x00, 0x00, 0x00, 0x03, b's', b'e'],
+                1 => vec![0xff; 9],
+                2 => vec![0x01],
+                _ => wire::raw_packet(&[0x03, b'x'], 0)[..5].to_vec(),
+            };
+            rep.counters.inc("rejections_with_unreadable_input_behind");
+        }
         if offer_tls {
             case.tls = tls.as_ref().map(|t| t.server_optional.clone());
         }
